@@ -493,6 +493,70 @@ RULES = [
 ]
 
 
+# ----------------------------------------------------------------- TICKET-FIELDS
+def rule_ticket_fields(ctx):
+    """TICKET-FIELDS: a ticket is written in a format version able to carry everything it was created
+    with.  SessionTicketPayload.create is interpreted for all combinations of optional fields (client
+    certificate chain, encrypt-then-MAC, extended master secret, server name; nothing of the library is
+    run): the version it settles on must be at least 1 with a chain and 2 with any of the flags / the
+    name, and the flags and the name must be stored as given - a ticket written as version 1 silently
+    drops them, and the resumed session then runs without EtM / EMS."""
+    import itertools
+    from ..condeval import Unknown
+    from .c01shared import run_method
+    R = "C13.TICKET-FIELDS"
+    fi = ctx.index.func("messages:SessionTicketPayload.create")
+    n = 0
+    for chain, etm, ems, name in itertools.product((None, ("cert",)), (False, True), (False, True), (b"", b"example.com")):
+        env = {"__selfstate__": True, "self.version": 0, "self.client_cert_chain": None, "self._cert_chain": None,
+               "self.encrypt_then_mac": False, "self.extended_master_secret": False, "self.server_name": b"",
+               "self": "SELF"}
+        try:
+            from ..condeval import exec_block, Returned, Raised
+            kind, val = _run_create(ctx, fi, [b"ms", (3, 3), 47, 1000, b"n", chain, etm, ems, name], env)
+        except (Unknown, TypeError, AttributeError, KeyError, IndexError, ValueError) as e:
+            raise AnalysisError("%s: cannot interpret %s: %s" % (R, fi.qname, e))
+        need = 2 if (etm or ems or name) else (1 if chain else 0)
+        got_v = env.get("self.version")
+        ok = kind in ("return", "end") and isinstance(got_v, int) and got_v >= need
+        if ok and need == 2:
+            ok = env.get("self.encrypt_then_mac") == etm and env.get("self.extended_master_secret") == ems \
+                and bytes(env.get("self.server_name") or b"") == name
+        if ok and chain:
+            ok = bool(env.get("self.client_cert_chain") or env.get("self._cert_chain"))
+        n += 1
+        ctx.check(R, ok, fi.qname, "ticket for chain=%s EtM=%s EMS=%s name=%r" % (bool(chain), etm, ems, name),
+                  "a ticket created with client chain=%s, encrypt_then_mac=%s, extended_master_secret=%s, server "
+                  "name %r ends as format version %r with EtM=%r EMS=%r name=%r: it needs version >= %d and the "
+                  "fields as given, otherwise write() drops them and the resumed session loses them" % (
+                      bool(chain), etm, ems, name, got_v, env.get("self.encrypt_then_mac"),
+                      env.get("self.extended_master_secret"), env.get("self.server_name"), need), fi.loc(),
+                  what="ticket format version carries chain=%s EtM=%s EMS=%s name=%s" % (bool(chain), etm, ems, bool(name)))
+    if n != 16:
+        raise AnalysisError("%s: %d combinations evaluated" % (R, n))
+
+
+def _run_create(ctx, fi, args, env):
+    from ..condeval import exec_block, Returned, Raised
+    e = {"__index__": ctx.index, "__bytes__": True, "__stmts__": True, "__selfcls__": fi.cls, "__calls__": {}}
+    e.update(env)
+    names = [a.arg for a in fi.node.args.args][1:]
+    for nm, v in zip(names, args):
+        e[nm] = v
+    try:
+        exec_block(fi.node.body, e)
+        res = ("end", None)
+    except Returned as r:
+        res = ("return", r.value)
+    except Raised as r:
+        res = ("raise", r.what)
+    env.update({k: v for k, v in e.items() if isinstance(k, str) and k.startswith("self.")})
+    return res
+
+
+RULES.append(("C13.TICKET-FIELDS", "quick", rule_ticket_fields))
+
+
 # ----------------------------------------------------------------- ETM-SOURCE (pending-state typestate)
 def rule_pending_source(ctx):
     """ETM-SOURCE: what is recorded about the connection-to-be (encrypt-then-MAC in the session and in
